@@ -391,6 +391,66 @@ def check_include_tries_next_candidate(fn):
     return 'unsat', dict(kind='after a candidate that could not be loaded the function can succeed without asking for the next candidate', path_a=None, path_b=None), dt, stats
 
 
+# ---------------------------------------------------------------------------------------------
+# State::with_execution_state (C06): a nested evaluation started with BlockState::Replace (include / import) ALWAYS
+# swaps in the given block table before the nested code runs - whatever the table contains
+# ---------------------------------------------------------------------------------------------
+def check_replace_always_swaps(mir, repo):
+    text = function_text(mir, r'^fn state::<impl at [^>]*>::with_execution_state\(')
+    if text is None:
+        return 'unknown', dict(kind='with_execution_state not found in the MIR'), 0.0, {}
+    src = open(os.path.join(repo, 'minijinja', 'src', 'vm', 'state.rs'), encoding='utf-8').read()
+    m = re.search(r'enum BlockState<[^>]*> \{(.*?)\n\}', src, re.S)
+    if not m:
+        return 'unknown', dict(kind='enum BlockState not found'), 0.0, {}
+    variants = re.findall(r'^\s{4}([A-Z]\w*)', re.sub(r'\s*///[^\n]*', '', re.sub(r'#\[[^\]]*\]', '', m.group(1))), re.M)
+    if 'Replace' not in variants:
+        return 'unknown', dict(kind='BlockState::Replace not found'), 0.0, {}
+    ridx = str(variants.index('Replace'))
+    fn = parse_function(text)
+    param = [l for l, t in fn['params'].items() if 'BlockState' in t]
+    if not param:
+        return 'unknown', dict(kind='block_state parameter not found'), 0.0, {}
+    der, _ = derive_map(fn)
+    adj, preds = cfg(fn)
+    s_ = z3.Solver()
+    D = {b: z3.Int('R_%s' % b) for b in fn['blocks'] if not fn['blocks'][b]['cleanup']}
+    s_.add(D['bb0'] == 0)
+    swaps = calls = 0
+    for bid, blk in fn['blocks'].items():
+        if blk['cleanup']:
+            continue
+        _, callee = call_of(blk['term'])
+        is_swap = bool(callee and re.match(r'std::mem::replace::<BTreeMap<&str, (?:vm::state::)?BlockStack<', callee))
+        is_nested = bool(callee and re.search(r'as FnOnce<.*>>::call_once\(', callee))
+        swaps += is_swap
+        if is_nested:
+            s_.add(D[bid] == 1)
+            calls += 1
+            continue           # what happens after the nested evaluation is the restore, checked by the scenarios
+        for label, tgt in adj[bid]:
+            if isinstance(label, tuple):
+                mm = re.match(r'switchInt\((?:copy|move) (_\d+)\)', blk['term'])
+                loc = mm.group(1)
+                if loc in der and der[loc][1] == 'disc' and der[loc][0] in param:
+                    keys = [l[1] for l, _ in adj[bid] if isinstance(l, tuple)]
+                    take = ridx if ridx in keys else 'otherwise'
+                    if label[1] != take:
+                        continue
+            s_.add(D[tgt] == (1 if (label == 'ok' and is_swap) else D[bid]))
+    t0 = time.time()
+    r = s_.check()
+    dt = time.time() - t0
+    stats = dict(swap_calls=swaps, nested_calls=calls, replace_index=int(ridx))
+    if calls == 0 or swaps == 0:
+        return 'unknown', dict(kind='block swap / nested call not recognised (swaps=%d, calls=%d)' % (swaps, calls)), dt, stats
+    if r == z3.sat:
+        return 'sat', None, dt, stats
+    if r != z3.unsat:
+        return str(r), None, dt, stats
+    return 'unsat', dict(kind='with BlockState::Replace the nested code can start without the given block table having been swapped in'), dt, stats
+
+
 def analyse(repo, out_dir):
     mir = dump_mir(repo, out_dir)
     results = []
@@ -417,6 +477,13 @@ def analyse(repo, out_dir):
             if info:
                 r['conflict'] = info['kind']
             results.append(r)
+    verdict, info, dt, stats = check_replace_always_swaps(mir, repo)
+    r = dict(function='with_execution_state', resource='replace_swaps_blocks', spec={}, verdict=verdict, z3_s=round(dt, 3), **stats)
+    if info:
+        r['conflict'] = info['kind']
+        if verdict == 'unknown':
+            r['detail'] = info['kind']
+    results.append(r)
     return results
 
 
